@@ -14,13 +14,14 @@ sys.path.insert(0, str(Path(__file__).resolve().parent.parent / 'translate'))
 import lib  # noqa
 import c10_gen  # noqa
 import c10_tables  # noqa
+import c10_tables_selftest  # noqa
 import c10_objpin  # noqa
 
 PID = 'C10'
 COQ_TYPE = {'tet': 'Tet', 'tet2': 'Tet2', 'pyr': 'Pyr', 'prism': 'Prism', 'hex': 'Hex'}
 CHECKS = ['extract_surface', 'to_surface', 'extract_surface_fistr', 'block_volumes', 'total_volume',
           'obj_write', 'obj_read', 'model_closed', 'model_volume', 'model_outward',
-          'wf_mesh', 'oriented_conforming', 'model_positive']
+          'wf_mesh', 'oriented_conforming', 'model_positive', 'obj_text', 'model_manifold']
 
 # ---- independent description of element faces (orientation-free cycles) used
 # by the property oracle on the implementation's output
@@ -227,12 +228,24 @@ def case_checks(case, r, expect_ok=True):
                 T if exp.get('oc', True) is None else
                 ('oriented_conforming m%d' % i) if exp.get('oc', True)
                 else ('negb (oriented_conforming m%d)' % i), T]
+    # OBJ `f` lines as characters (ObjText.face_line evaluated on the model's surface)
+    fraw = ob.get('fraw') if (ob is not None and not is_err(ob)) else None
+    if fraw is None:
+        out.append(T)
+    elif not all(all(32 <= ord(ch) < 127 for ch in ln) for ln in fraw):
+        out.append('false')
+    else:
+        defs.append(f'Definition ft{i} : list string := {lib.coq_list([lib.coq_str(ln) + "%string" for ln in fraw])}.')
+        out.append(f'check_obj_text m{i} ft{i}')
+    # C10_surface_manifold_edges on the model: hypothesis and conclusion evaluated (the generator's
+    # lattices contain non-manifold contacts along edges: both outcomes of edge_manifold occur)
+    out.append(f'model_manifold_ok m{i}' if expect_ok else T)
     assert len(out) == len(CHECKS)
     return defs, out
 
 
-HEADER = ['From Coq Require Import List ZArith Bool Arith.', 'Import ListNotations.',
-          'From FV.C10 Require Import Model Corr.', 'Open Scope Z_scope.',
+HEADER = ['From Coq Require Import String.', 'From Coq Require Import List ZArith Bool Arith.', 'Import ListNotations.',
+          'From FV.C10 Require Import Model Corr ObjText.', 'Open Scope Z_scope.',
           'Set Printing Width 100000.', 'Set Printing Depth 100000.']
 
 
@@ -625,7 +638,7 @@ def gen_cases(ctx, widened=False):
     rng = ctx.rng
     n_valid = 110 if ctx.tier == 'quick' else 1500
     if widened and ctx.tier == 'quick':
-        n_valid = 440
+        n_valid = 330
     cases = []
     kinds = ['hex', 'tet', 'pyr', 'prism', 'hexpyr', 'mix', 'tetprism', 'tet', 'mix']
     for k in range(n_valid):
@@ -818,6 +831,13 @@ def main(ctx):
         'STL export cannot run here (numpy-stl absent): only its use of extract_surface is covered',
         'elements are tet, tet2, pyr, prism, hex; polygons/polyhedra are outside the model',
     ]
+    # 0. translator self-test: spellings with the same meaning must give the reference tables, edits
+    # with another meaning must give other tables or fail closed
+    try:
+        nv, nm, st_problems = c10_tables_selftest.run()
+    except Exception as e:          # noqa
+        nv, nm, st_problems = 0, 0, ['self-test crashed: %r' % (e,)]
+    ctx.notes['translator_selftest'] = {'variants': nv, 'mutants': nm, 'problems': st_problems}
     # 1. translate (T).  A region the translator cannot read is not by itself a violation: the
     # committed baseline tables become the hand model of that region (tie H) and the correspondence
     # is widened (BUILDERS_R5 policy); only a disagreement / a failing input is a violation.
@@ -844,7 +864,7 @@ def main(ctx):
     # 2. proofs (in fallback mode: about the baseline tables)
     proof_ok = False
     if tie_ok or fallback:
-        proof_ok, log = ctx.build_props('C10/Props.v', extra_targets=['C10/Corr.vo'])
+        proof_ok, log = ctx.build_props('C10/Props.v', extra_targets=['C10/Corr.vo', 'C10/ObjText.vo'])
         proof_ok = fix_obligations(ctx) and bool(ctx.obligations)
         if not proof_ok:
             ctx.notes['build_log_tail'] = log[-1500:]
@@ -855,7 +875,7 @@ def main(ctx):
         for n in lib.theorem_names(lib.COQ / 'C10' / 'Props.v'):
             ctx.obligations.append({'name': n, 'discharged': False, 'assumptions': [],
                                     'note': 'translator failed closed, no baseline'})
-    model_ok, _, _ = lib.coq_make(['C10/Corr.vo']) if (tie_ok or fallback) else (False, '', 0)
+    model_ok, _, _ = lib.coq_make(['C10/Corr.vo', 'C10/ObjText.vo']) if (tie_ok or fallback) else (False, '', 0)
 
     # 2b. body fingerprint of the OBJ writer (size-dependent behaviour is out of reach of the in-Coq
     # evaluation): a changed body is not a violation, it widens the search to > 8 192 and > 65 536 faces
@@ -899,6 +919,9 @@ def main(ctx):
         ctx.count('n_elem:' + ('1' if n_el == 1 else '2-9' if n_el < 10 else '10-29' if n_el < 30 else '30+'))
         s = res[c['id']].get('surface')
         nsurf = 0 if (s is None or is_err(s)) else sum(len(v) for v in s.values())
+        if nsurf and c['valid']:
+            de = [(f[k], f[(k + 1) % len(f)]) for v in s.values() for f in v for k in range(len(f))]
+            ctx.count('edge_manifold:' + ('yes' if len(set(de)) == len(de) else 'no'))
         nfaces = sum(len(FACE_CYCLES[t]) * len(v) for t, v in c['blocks'].items())
         ctx.case([c['nodes'], c['blocks']], nontrivial=(nsurf < nfaces or len(c['blocks']) > 1),
                  sample={'meta': meta, 'n_surface_faces': nsurf, 'n_element_faces': nfaces})
@@ -995,6 +1018,10 @@ def main(ctx):
                       'correspondence C10 (Corr.check_probe)', found_input=False,
                       signature={'check': 'face_table_probe', 'kind': 'scratch-failed'})
         reported += 1
+    if st_problems:
+        ctx.violation('tie-broken', {'problems': st_problems}, 'translator self-test passes',
+                      '; '.join(st_problems)[:400], 'translator c10_tables (self-test)', found_input=False,
+                      signature={'kind': 'tie-broken', 'what': 'translator-selftest'})
     if not obj_ok:
         # changed body => deeper search (done above: plates with 17 290 and 66 976 faces), never by itself a violation
         ctx.notes['tie_obj_writer'] = ('H (OBJWriter body differs from the validated one, fingerprint %s; hand model '
@@ -1036,7 +1063,7 @@ def replay(path):
         ctx = lib.Ctx(PID, 'quick')
         obs = run_impl(ctx, [], tag='replay', probes=[c['probe']])['probes']['rows']
         po = probe_oracle(c['probe'], obs[0])
-        ok, _, _ = lib.coq_make(['C10/Corr.vo'])
+        ok, _, _ = lib.coq_make(['C10/Corr.vo', 'C10/ObjText.vo'])
         bad = run_coq_probes(ctx, [c['probe']], obs) if ok else None
         print('implementation:', json.dumps(obs[0])[:1500])
         print('oracle (node sets of the element faces):', po or 'same')
@@ -1058,7 +1085,7 @@ def replay(path):
     bad = judge(case, r)
     print('implementation:', json.dumps({k: v for k, v in r.items() if k in ('surface', 'fistr')})[:1500])
     print('oracle:', bad)
-    ok, _, _ = lib.coq_make(['C10/Corr.vo'])
+    ok, _, _ = lib.coq_make(['C10/Corr.vo', 'C10/ObjText.vo'])
     if ok:
         cs = [case]
         res = {0: r}
